@@ -11,7 +11,7 @@ from . import cache_common as cc
 from . import c06s
 
 PROOFS = ["proofs/CacheLiveStepsProofs.v", "models/CacheLiveSteps.v", "models/CacheSteps.v",
-          "proofs/CacheLiveProofs.v", "models/CacheLive.v", "models/Cache.v"]
+          "proofs/CacheLiveProofs.v", "models/CacheLive.v", "models/Cache.v", "models/CacheOptions.v"]
 
 TRUSTED = [
     "faketime runtime mode and harness/cmd/ftcache (timed script runner, log, virtual-time watchdog)",
@@ -81,6 +81,40 @@ def refresh_full_queue_script(rng, trials=20):
     return sc
 
 
+def add_gc(rng, sc, n=None):
+    """Garbage collections (runtime.GC(), 1 ns of virtual time so that the finalizer goroutine runs, runtime.GC()) in the
+    middle of the script, while the script still holds and uses the cache: between the Loads of the burst, while
+    loaders run, while Loads wait for room in the queue, before later calls. Every call must still return and every
+    Future must still resolve (the cache's finalizer may only act on a cache nobody can reach any more)."""
+    used = sc.used_instants()
+    ts = sorted(a[0] for a in sc.acts)
+    lo, hi = ts[0], ts[-1]
+    maxdur = max(d for l in sc.ld for (d, _, _) in l)
+    cands = [lo + 4, lo + 20, (lo + hi) // 2 - ((lo + hi) // 2) % 16 + 4, hi + 4, hi + maxdur // 2 - (maxdur // 2) % 16 + 4, lo + sc.ne // 2 - (sc.ne // 2) % 16 + 4]
+    rng.shuffle(cands)
+    for t in cands[:n or rng.range(1, 3)]:
+        sc.add(cc.free_instant(used, max(0, t)), "C", 0)
+    return sc
+
+
+def gc_scripts(rng, n, trials):
+    out = []
+    for i in range(n):
+        kind = i % 3
+        if kind == 0:
+            sc = burst_script(rng, trials=trials)
+        elif kind == 1:
+            sc = refresh_full_queue_script(rng, trials=trials)
+        else:
+            # plain use with room in the queue: Loads, a collection, then more Loads / Gets of old and new keys
+            sc = cc.base_script(rng, nkeys=rng.range(2, 4), jcs=rng.choice([1, 2, cc.BIG_JCS]), nacts=rng.range(4, 9), horizon_mult=6, set_pct=8)
+            sc.trials = trials
+            for _ in range(rng.range(0, 3)):
+                sc.add(cc.free_instant(sc.used_instants(), 16 * rng.below(6 * sc.ne // 16 + 1) + 8), rng.choice(["G", "g"]), rng.below(len(sc.keys)))
+        out.append(add_gc(rng, sc))
+    return out
+
+
 def d2_script(trials=20):
     """the refutation scenario of DESIGN.md D2: parallel=1, jobChanSize=1, 6 Loads, 5E loaders"""
     ne = 1600
@@ -141,7 +175,7 @@ def run(chk):
     if binary:
         try:
             quick = chk.tier == "quick"
-            corpus = [cc.parse_line(l) for l in corpus_lines if l.startswith("ftc")]
+            corpus = [cc.parse_line(l) for l in corpus_lines if l.startswith(("ftc", "ftm"))]
             streams = [("corpus", corpus)]
             nb = 40 if quick else 400
             streams.append(("bursts", [burst_script(chk.rng, trials=20 if quick else 50) for _ in range(nb)]))
@@ -153,6 +187,7 @@ def run(chk):
                 sc.acts = sc.acts[:min(len(sc.acts), 5)]
                 small_scripts.append(sc)
             streams.append(("small-bursts", small_scripts))
+            streams.append(("gc-while-in-use", gc_scripts(chk.rng, 30 if quick else 300, trials=4 if quick else 10)))
             allres = []
             for name, scripts in streams:
                 res = cc.check_batch(chk, binary, name, scripts, monitor_c06, feed_sweeps=lambda si, ti: ti % 2 == 1,
@@ -231,21 +266,15 @@ def search(chk):
         return
     chk.rng = chk.rng.fork()
     scripts = [d2_script(40)] + [burst_script(chk.rng, par=1, jcs=1, trials=40) for _ in range(20)] + [burst_script(chk.rng, trials=40) for _ in range(20)]
-    outs = cc.run_ft(binary, [s.line() for s in scripts], chunk=10)
-    for sc, out in zip(scripts, outs):
-        if out.startswith("PANIC"):
-            chk.monitor_fail("panic", sc.line(), out[:500], out[:300])
-            continue
-        for log in cc.split_trials(out):
-            mf = monitor_c06(sc, log)
-            if mf:
-                chk.monitor_fail(mf[0], sc.line(), log.text[:3000], mf[1])
+    scripts += gc_scripts(chk.rng, 30, trials=4)
+    cc.expected_configs(chk, scripts)
+    cc.monitor_items(chk, binary, scripts, monitor_c06, chunk=10)
 
 
 def replay(chk, path):
     rep = json.load(open(path))
     binary = cc.build_ft(chk)
-    cases = [x["case"] for x in rep.get("failing_inputs", []) + rep.get("divergences", []) if isinstance(x.get("case"), str) and x["case"].startswith("ftc")]
+    cases = [x["case"] for x in rep.get("failing_inputs", []) + rep.get("divergences", []) if isinstance(x.get("case"), str) and x["case"].startswith(("ftc", "ftm"))]
     scripts = [cc.parse_line(c) for c in cases]
     cc.check_batch(chk, binary, "replay", scripts, monitor_c06, exact_load_return=False)
     steps = [x["case"] for x in rep.get("failing_inputs", []) + rep.get("divergences", []) if isinstance(x.get("case"), str) and x["case"].startswith("c06s ")]
